@@ -201,4 +201,21 @@ example : ¬ Reord (.dict [[97]] [.int 1]) (.dict [[97]] [.int 2]) := by
 example : encVal (fun _ => []) (fun _ => none) (.dict [[97], [97]] [.int 1, .int 2])
     ≠ encVal (fun _ => []) (fun _ => none) (.dict [[97], [97]] [.int 2, .int 1]) := by decide
 
+/-! ### the named hypotheses are satisfiable on non-trivial values (audit round 8, item 6)
+    `deepG` / `deepG'`: two nodes, node 0 with two arguments stored in the other order, one of them a nested dict whose
+    keys come in another order. -/
+
+/-- `GraphReord` on two genuinely different orders of one graph. -/
+example : GraphReord deepG deepG' ∧ (deepG.node 0).args.map (·.name) ≠ (deepG'.node 0).args.map (·.name)
+    ∧ (deepG.node 0).args.length = 2 :=
+  ⟨deepG_reord, by decide, by decide⟩
+/-- `NodeReord` at the node whose arguments are swapped and whose dict is reordered. -/
+example : NodeReord (deepG.node 0) (deepG'.node 0) := deepG_reord.node 0 (by decide)
+/-- `NodeDistinctKeys` of that node (it holds the nested dict `deepV`). -/
+example : NodeDistinctKeys (deepG.node 0) := deepG_distinctKeys 0 (by decide)
+/-- `ArgReord` between the argument holding `deepV` and the one holding the reordered `deepV'` (hypothesis of
+    `included_any_depth_order`, together with `DistinctKeys`). -/
+example : ArgReord { name := [100], value := deepV } { name := [100], value := deepV' } ∧ DistinctKeys deepV :=
+  ⟨⟨rfl, rfl, rfl, rfl, rfl, rfl, deepV_reord⟩, deepV_distinctKeys⟩
+
 end XpmVerif.C01
